@@ -268,9 +268,10 @@ theorem mul_base_noninterference (radix adds : Nat) (tables₁ tables₂ : List 
     (mulBaseL ops radix adds tables₁ s₁).trace = (mulBaseL ops radix adds tables₂ s₂).trace := by
   simp
 
-/-- in `mul_base` the table ROW index is the loop counter halved: rows 0 … 31, odd pass then even pass -/
-theorem mul_base_row_indices :
-    (indices (mulBaseTrace 4 64)).filter (· < 32) ≠ [] ∧ branches (mulBaseTrace 4 64) = [true] := by
+/-- in `mul_base` (default radix-16 table) the ONLY jump is the public test `w == 4` of `as_radix_2w`, and every
+memory offset (table row `i / 2`, digit `a[i]`, `select`'s scan) is below 64: loop counters, never a digit -/
+theorem mul_base_only_public_branch :
+    branches (mulBaseTrace 4 64) = [true] ∧ (indices (mulBaseTrace 4 64)).all (· < 64) = true := by
   decide +kernel
 
 end serial
@@ -446,7 +447,14 @@ theorem calls_accounted :
     callsAccounted (mulBaseTrace 4 64) = true ∧ callsAccounted (mulBaseTrace 8 33) = true ∧
     callsAccounted x25519Trace = true ∧ callsAccounted x25519PublicKeyTrace = true ∧
     callsAccounted keygenTrace = true ∧ callsAccounted (signCoreTrace 0 3 32) = true ∧
-    callsAccounted (scalarBatchInvertTrace 2) = true ∧ callsAccounted (feBatchInvertTrace 2 true) = true := by
+    callsAccounted (feBatchInvertTrace 2 true) = true := by
   decide +kernel
+
+/-- `Scalar::batch_invert`, for EVERY number of inputs: besides the translated `Scalar52` kernels it only calls the
+two vector housekeeping routines, both listed in `callees` -/
+theorem scalar_batch_invert_calls_accounted (n : Nat) : callsAccounted (scalarBatchInvertTrace n) = true := by
+  unfold callsAccounted
+  rw [scalarBatchInvert_callNames]
+  decide
 
 end Dalek.Props.C10
